@@ -26,6 +26,7 @@ LEVEL = "exploration"
 # order-dependent TDVP integration error stays far below this for the workloads generated here
 # (calibrated: see evidence 'calibration_max_discrepancy'); a misdirected per-atom drive moves >= 0.05
 TOL = 2e-3
+TOL_CLOSE_PAIR = 3e-2
 RULE = (
     "One case = one (scenario, internal order / relabelling / resume) comparison against the identity-order run of the same "
     "scenario. Scenarios have distinguishable atoms (local-channel targets, DMM weights, SLM masks, irregular geometry, dark "
@@ -39,6 +40,7 @@ COMPONENTS = {
 }
 PROBES = ["non_identity_order_with_per_atom_drive", "relabelled_register", "reinserted_register", "resume_under_non_identity_order", "dark_atoms_present", "slm_mask_present", "dmm_present", "pi_pulse_bitstring", "non_permutable_observable_safeguard", "real_optimiser_order", "user_initial_state", "register_of_8_to_16_atoms", "observable_with_tag_suffix"]
 ASSUMPTIONS = [
+    "close-pair workloads (SLM mask with a blockaded neighbour, blockade): per-atom tolerance max(3e-2, 20 T E^3 dt^2) - the order-dependent splitting error of 300 ns of strongly driven blockade dynamics was measured at up to 4e-3, a mis-wired interaction moves the pair by 0.2-0.45",
     "per-atom tolerance max(2e-3, 0.5 T E^3 dt^2) with E the largest single energy of the scenario (two-site TDVP splitting error; the generator keeps the estimate below the floor, e.g. SLM scenarios use a weak first pulse because the mask is a detuning of 10 x its amplitude); comparison tolerance 2e-3 absolute on occupations / correlations, 2e-3 x |H| on energies and 2e-3 x |H|^2 on energy second moment / variance (|H| = an upper bound on the energy scale computed from the scenario, SLM detuning included); the two-site TDVP projection error depends on the site order (the largest occupation discrepancy seen over seeds 0-8 was 7e-5, with an SLM mask), a misdirected per-atom drive moves an occupation by >= 0.05; workloads keep the order-dependent TDVP error orders of magnitude below it (bond dimension uncapped, precision 1e-8, E*dt <= 0.05) and a misdirected per-atom drive changes some occupation by >= 0.05",
     "bit strings are compared exactly only in the pi-pulse workload (deterministic outcome); elsewhere per position against the occupations of the same run (exact binomial test, family-wise level 1e-9 per invocation, noiseless runs only)",
 ]
@@ -46,7 +48,7 @@ ASSUMPTIONS = [
 
 def plan(tier: str) -> dict:
     if tier == "quick":
-        return {"runs": 150, "wall_s": 170, "task_timeout": 400}
+        return {"runs": 130, "wall_s": 170, "task_timeout": 500}
     return {"runs": 2600, "wall_s": 1700, "task_timeout": 1200}
 
 
@@ -55,6 +57,8 @@ def gen_case(tape: Tape, tier: str) -> dict:
     n = tape.int(2, 5 if tier == "quick" else 6, "n_atoms")
     if kind in ("slm", "dark", "blockade"):
         n = max(n, 3)
+    if kind in ("slm", "blockade") and tier == "quick":
+        n = min(n, 4)  # these runs last 300-400 steps
     # registers beyond the reach of a dense reference (the oracle is run-vs-run, so none is needed): 8-16 atoms,
     # >= 9.5 um apart, short sequences, so that the MPS stays weakly entangled whatever the internal order
     large = kind in ("local", "pi", "dmm", "geometry", "initial") and tape.bool(0.05 if tier == "quick" else 0.15, "large")
@@ -95,6 +99,9 @@ def gen_case(tape: Tape, tier: str) -> dict:
     T = tape.int(20, 90, "T") if not close_pair else tape.int(70, 100, "T")
     if large:
         T = min(T, 20 + T % 21)
+    if kind == "blockade":
+        T = 130 + 2 * T  # 270-330 ns at 7-10 rad/us: a pulse area of 2-3 rad, so that the blockade of the close pair shows
+        dt = 2.0
     if kind == "usermat":
         T = 150 + 2 * T  # 190-330 ns: long enough for the *sign* of a coupling to show in the occupations
         dt = 2.0
@@ -143,7 +150,9 @@ def gen_case(tape: Tape, tier: str) -> dict:
         # "masked" to "full" in mid-run (Hamiltonian rebuilt at that step); with a close pair of which one atom is
         # masked, the blockade of that pair must switch on exactly then
         if tape.bool(0.7, "slm_second_pulse") or pair is not None:
-            ops.append({"op": "pulse", "ch": "g", "dur": tape.int(60, 90, "T_after_slm"), "amp": {"k": "const", "v": round(tape.float(7.0, 10.0, "g_amp2"), 3)}, "det": {"k": "const", "v": round(tape.float(-1.0, 1.0, "g_det2"), 3)}, "phase": 0.0})
+            # area 1.7 .. 3.2 rad: alone, an atom ends up mostly excited; blockaded by its neighbour it does not - whether
+            # the interaction of the formerly masked atom is switched on at the end of the mask shows at the 0.1 level
+            ops.append({"op": "pulse", "ch": "g", "dur": 180 + 2 * tape.int(30, 70, "T_after_slm"), "amp": {"k": "const", "v": round(tape.float(7.0, 10.0, "g_amp2"), 3)}, "det": {"k": "const", "v": round(tape.float(-1.0, 1.0, "g_det2"), 3)}, "phase": 0.0})
     if kind == "usermat":
         # a user-supplied interaction matrix with couplings of both signs (attractive and repulsive): which atoms
         # interact how is visible only through it, and the ordering optimiser is handed that very tensor
@@ -177,7 +186,7 @@ def gen_case(tape: Tape, tier: str) -> dict:
     for k in ("interaction_matrix", "noise"):
         if k in cfg_extra:
             cfg[k] = cfg_extra[k]
-    return {"scn": scn, "cfg": cfg, "T": float(S.build_sequence(scn).get_duration()), "n": n, "kind": kind, "extra": cfg_extra, "solver": "tdvp", "large": large}
+    return {"scn": scn, "cfg": cfg, "T": float(S.build_sequence(scn).get_duration()), "n": n, "kind": kind, "extra": cfg_extra, "solver": "tdvp", "large": large, "close_pair": bool(close_pair), "long": bool(close_pair) or kind == "usermat"}
 
 
 def cycle_type(p: list[int]) -> str:
@@ -296,6 +305,11 @@ def tolerances(case: dict) -> dict:
     2 TOL, so this is a safety net (largest observed discrepancy / estimate: 0.15, in the scenario that prompted it)."""
     h = energy_scale(case)
     t = max(TOL, 0.5 * splitting_error_estimate(case))
+    if case.get("close_pair"):
+        # strongly driven blockade dynamics over ~300 ns: the order-dependent splitting error reaches 4e-3 on the
+        # blockaded atoms (measured on the unchanged tree), while anything that mis-wires the interaction of the close
+        # pair moves their occupations by 0.2-0.45.  These workloads exist to see the latter.
+        t = max(TOL_CLOSE_PAIR, 20.0 * splitting_error_estimate(case))
     f = t / TOL
     return {"occupation": t, "correlation_matrix": t, "occupation_x": t, "correlation_matrix_x": t, "energy": t * h, "energy_variance": t * h * h, "energy_second_moment": t * h * h, "_scale": f}
 
@@ -378,7 +392,7 @@ def run_one(tape: Tape, tier: str, opts: dict) -> dict:
             pol = None
             if do_resume:
                 # (large registers: autosaving after every unit of work would record hundreds of snapshots of ~100 KB)
-                _, pol = C.clock_policy(tape, 11.0, tape.choice(["period", "every"] if not case.get("large") else ["period"], "rclock"))
+                _, pol = C.clock_policy(tape, 11.0, tape.choice(["period", "every"] if not (case.get("large") or case.get("long")) else ["period"], "rclock"))
             out = run_under(world, case, seeds, perm, autosave=do_resume, policy=pol, record=do_resume)
             evals += 1
             used = getattr(out, "perm_used", perm)
